@@ -44,6 +44,14 @@ def _write_exe(path, text):
     os.chmod(path, 0o755)
 
 
+def _repo_export():
+    # BFGSIM_REPO=<dir>: run a scratch copy of bfg9000 instead of /repo (used
+    # for sensitivity experiments and for validating pinned replays against
+    # the tree before a fix)
+    repo = os.environ.get('BFGSIM_REPO')
+    return 'export BFGSIM_REPO={0}\n'.format(repo) if repo else ''
+
+
 def install_stubs(world, *, hashseed='0', msvc=False, tools=None,
                   touch=True, config=None):
     """Populate <world>/bin with the stub toolchain, the bfg9000 shim and the
@@ -65,10 +73,10 @@ def install_stubs(world, *, hashseed='0', msvc=False, tools=None,
     for prog in ('bfg9000', '9k'):
         _write_exe(
             os.path.join(world.bin, prog),
-            '#!/bin/sh\nBFGSIM_TAG=backend PYTHONHASHSEED={} '
+            '#!/bin/sh\n{}BFGSIM_TAG=backend PYTHONHASHSEED={} '
             'PYTHONDONTWRITEBYTECODE=1 exec {} {} {} "$0" "$@"\n'
-            .format(hashseed, PY, os.path.join(HERE, 'shim_main.py'),
-                    world.root))
+            .format(_repo_export(), hashseed, PY,
+                    os.path.join(HERE, 'shim_main.py'), world.root))
     if touch:
         _write_exe(
             os.path.join(world.bin, 'touch'),
@@ -223,6 +231,8 @@ def run_bfg(world, args, *, env=None, cwd=None, prog=None, mode='fork',
         penv = dict(fenv)
         penv.update({'PYTHONHASHSEED': str(hashseed), 'BFGSIM_TAG': tag,
                      'PYTHONDONTWRITEBYTECODE': '1'})
+        if os.environ.get('BFGSIM_REPO'):
+            penv['BFGSIM_REPO'] = os.environ['BFGSIM_REPO']
         with open(outpath, 'wb') as out:
             p = subprocess.Popen(cmd, env=penv, cwd=cwd, stdout=out,
                                  stderr=subprocess.STDOUT,
